@@ -608,6 +608,10 @@ impl<H: Hooks> Gen<H> {
                 return Some(h);
             }
         }
+        if op == "rst" && self.cfg.profile == Profile::Big && !v.live.is_empty() && self.rng.chance(0.35) {
+            bump(&mut self.stats.node_class, "big_oldest".to_string());
+            return v.live.iter().copied().min();
+        }
         if op == "appv" && !v.dead.is_empty() && self.rng.chance(0.05) {
             bump(&mut self.stats.node_class, "dead".to_string());
             return Some(self.rng.pick(&v.dead));
@@ -723,7 +727,7 @@ impl<H: Hooks> Gen<H> {
             self.emit("qeq")?;
         }
         // a copy made by clone / clone_from is looked at through every iterator (both ends) right away
-        if op == "fork" && self.cfg.profile == Profile::Iters && self.ex.alt.is_some() {
+        if op == "fork" && self.cfg.profile != Profile::Alloc && self.ex.alt.is_some() {
             self.mutate("swap")?;
             self.observe(false)?;
             self.mutate("swap")?;
@@ -857,7 +861,21 @@ impl<H: Hooks> Gen<H> {
             let len = if empty { 0 } else { 1 + r.below(5) };
             lines.push((0..len).map(|_| r.pick(&ALPH)).collect::<String>());
         }
-        let text = lines.join("\n");
+        // Windows line ends now and then: a '\r' right before the '\n' (and stray '\r's)
+        let mut text = String::new();
+        for (i, l) in lines.iter().enumerate() {
+            if i > 0 {
+                if r.chance(0.15) {
+                    text.push('\r');
+                }
+                text.push('\n');
+            }
+            text.push_str(l);
+            if !l.is_empty() && r.chance(0.05) {
+                text.push('\r');
+                text.push('x');
+            }
+        }
         let bounds: Vec<usize> = text.char_indices().map(|(i, _)| i).chain(std::iter::once(text.len())).collect();
         let nch = 1 + r.below(4);
         let mut cuts: Vec<usize> = (0..nch - 1).map(|_| r.pick(&bounds)).collect();
